@@ -1400,3 +1400,273 @@ Proof.
   intros [C T A] N. constructor; auto.
   intros c0 t0 v0. rewrite alookup_aset. destruct (Nat.eqb c c0); intros L; [inversion L; subst; auto | eauto].
 Qed.
+
+(* --- the contiguity invariant on states ------------------------------------------ *)
+Section Contig.
+Variable i : nat.
+Variable cfg : config.
+
+Definition nosers (hp : heapT) : Prop := forall h a, alookup h hp = Some a -> a_sers a = None.
+
+Lemma nosers_aset hp h a' : nosers hp -> a_sers a' = None -> nosers (aset h a' hp).
+Proof.
+  intros N S h0 a0. rewrite alookup_aset.
+  destruct (Nat.eqb h h0); intros L; [inversion L; subst; auto | eauto].
+Qed.
+
+Record CInv (b : option nat) (s : state) : Prop := {
+  c_inv : Inv i s;
+  c_gs : nokey K_status (globals s) = true;
+  c_ns : nosers (heap s);
+  c_FI : FI (heap s) (ctx s) (tokens s);
+  c_CI : CI (heap s) (ids s) (trace_of s i) b
+}.
+
+Lemma deliver_proj s m : Inv i s ->
+  let s' := fst (deliver s m) in
+  heap s' = heap s /\ ctx s' = ctx s /\ tokens s' = tokens s /\ ids s' = ids s /\
+  globals s' = globals s /\ trace_of s' i = trace_of s i ++ [m].
+Proof.
+  intros [A [d D] Gu Gl P H]. rewrite deliver_eq by exact A. cbn [fst].
+  repeat split. pose proof (fanout_find i m _ _ D) as D'.
+  erewrite trace_reg by (cbn; exact D'). cbn [d_log]. now rewrite (trace_reg _ _ _ D).
+Qed.
+
+Lemma CInv_deliver b s m :
+  Inv i (fst (deliver s m)) -> Inv i s -> nokey K_status (globals s) = true -> nosers (heap s) ->
+  FI (heap s) (ctx s) (tokens s) -> CI (heap s) (ids s) (trace_of s i ++ [m]) b ->
+  CInv b (fst (deliver s m)).
+Proof.
+  intros I' I G N F C. destruct (deliver_proj s m I) as (E1 & E2 & E3 & E4 & E5 & E6).
+  constructor; auto; rewrite ?E1, ?E2, ?E3, ?E4, ?E5, ?E6; auto.
+Qed.
+
+Ltac proj_set := cbn [heap ctx tokens ids globals next_uuid set_heap set_ctx set_tokens set_ids
+                      fresh_uuid fst snd].
+
+Lemma emit_cinv b s h a m :
+  CInv b s -> alookup h (heap s) = Some a -> a_finished a = false ->
+  place m = mkplace (a_uuid a) (nextpos a) ->
+  CInv b (fst (deliver (set_heap s h (bump a)) m)).
+Proof.
+  intros [I G N F C] L Fa Pm.
+  destruct (take_step i _ _ _ I L) as (S1 & Pd & _).
+  apply CInv_deliver; proj_set; auto.
+  - apply deliver_step; [apply S1 | exists (a_uuid a), (nextpos a); auto].
+  - apply S1.
+  - apply nosers_aset; auto. cbn. eauto.
+  - eapply FI_aset_same; eauto. intros v E. eapply fi_atok; eauto.
+  - change (trace_of (set_heap s h (bump a)) i) with (trace_of s i). apply CI_emit; auto.
+Qed.
+
+Lemma end_cinv s h a m :
+  CInv (Some h) s -> alookup h (heap s) = Some a ->
+  place m = mkplace (a_uuid a) (nextpos a) -> is_end m ->
+  CInv None (fst (deliver (set_heap s h (bump a)) m)).
+Proof.
+  intros [I G N F C] L Pm Em.
+  destruct (take_step i _ _ _ I L) as (S1 & Pd & _).
+  apply CInv_deliver; proj_set; auto.
+  - apply deliver_step; [apply S1 | exists (a_uuid a), (nextpos a); auto].
+  - apply S1.
+  - apply nosers_aset; auto. cbn. eauto.
+  - eapply FI_aset_same; eauto. intros v E. eapply fi_atok; eauto.
+  - change (trace_of (set_heap s h (bump a)) i) with (trace_of s i). apply CI_end; auto.
+Qed.
+
+Lemma lone_cinv b s c m :
+  CInv b s -> cur s c = None -> place m = mkplace (next_uuid s) [1%positive] ->
+  CInv b (fst (deliver (fst (fresh_uuid s)) m)).
+Proof.
+  intros [I G N F C] Cu Pm.
+  assert (E : msg_position s c = (fst (fresh_uuid s), next_uuid s, [1%positive])).
+  { unfold msg_position. rewrite Cu. reflexivity. }
+  destruct (msg_position_step i _ _ _ _ _ I E) as (S1 & Pd).
+  apply CInv_deliver; proj_set; auto.
+  - apply deliver_step; [apply S1 | exists (next_uuid s), [1%positive]; auto].
+  - apply S1.
+  - change (trace_of (fst (fresh_uuid s)) i) with (trace_of s i). now apply CI_msg.
+Qed.
+
+Lemma cur_unfin s c h a :
+  FI (heap s) (ctx s) (tokens s) -> cur s c = Some h -> alookup h (heap s) = Some a ->
+  a_finished a = false.
+Proof.
+  intros F Cu L. unfold cur in Cu. destruct (alookup c (ctx s)) as [v|] eqn:E; [|discriminate].
+  subst v. exact (fi_ctx _ _ _ F _ _ E _ L).
+Qed.
+
+Lemma unfin_cur s c : FI (heap s) (ctx s) (tokens s) -> unfin (heap s) (cur s c).
+Proof.
+  intros F. unfold cur. destruct (alookup c (ctx s)) as [v|] eqn:E; [|exact I].
+  eapply fi_ctx; eauto.
+Qed.
+
+(* one message logged "here" (current action of context c, or a fresh uuid) *)
+Lemma stamp_deliver_cinv b s c mt fs s2 m m' :
+  CInv b s -> stamp_here s c mt fs = (s2, m) -> place m' = place m ->
+  CInv b (fst (deliver s2 m')).
+Proof.
+  intros CI0 E Pm. unfold stamp_here, msg_position in E.
+  pose proof (olive_cur s c (inv_HI _ _ (c_inv _ _ CI0))) as O.
+  destruct (cur s c) as [h|] eqn:Cu.
+  - destruct (live_lookup _ _ O) as (a & L). rewrite (take_level_eq _ _ _ L), L in E.
+    inversion E; subst s2 m. apply emit_cinv; auto.
+    + eapply cur_unfin; eauto using c_FI.
+    + now rewrite Pm, place_stamp.
+  - cbn in E. inversion E; subst s2 m. eapply lone_cinv; eauto. now rewrite Pm, place_stamp.
+Qed.
+
+Lemma place_globals s m : Inv i s -> place (fupdate m (globals s)) = place m.
+Proof. intros I. apply place_fupdate; [apply (inv_gu _ _ I) | apply (inv_gl _ _ I)]. Qed.
+
+Lemma stamp_here_globals s c mt fs s2 m : stamp_here s c mt fs = (s2, m) -> globals s2 = globals s.
+Proof.
+  unfold stamp_here, msg_position, take_level. destruct (cur s c) as [h|].
+  - destruct (alookup h (heap s)); intros E; inversion E; reflexivity.
+  - intros E; inversion E; reflexivity.
+Qed.
+
+Lemma log_report_cinv b c about s e : CInv b s -> CInv b (log_report c about s e).
+Proof.
+  intros C. unfold log_report. destruct (stamp_here s c _ _) as [s2 m] eqn:E. unfold send_report.
+  eapply stamp_deliver_cinv; eauto.
+  destruct (stamp_here_step i _ _ _ _ _ _ (c_inv _ _ C) E) as (S1 & _).
+  apply place_globals, S1.
+Qed.
+
+Lemma fold_log_report_cinv b c about errs : forall s,
+  CInv b s -> CInv b (fold_left (log_report c about) errs s).
+Proof.
+  induction errs as [|e r IH]; intros s C; cbn [fold_left]; [exact C|].
+  apply IH, log_report_cinv, C.
+Qed.
+
+Lemma send_cinv b c s m :
+  CInv b (fst (deliver s (fupdate m (globals s)))) -> CInv b (send c s m).
+Proof.
+  intros C. unfold send. destruct (deliver s (fupdate m (globals s))) as [s1 errs]. cbn [fst] in C.
+  destruct (is_report _); [exact C|]. now apply fold_log_report_cinv.
+Qed.
+
+Lemma log_traceback_plain_cinv b c s e extra :
+  CInv b s -> CInv b (log_traceback_plain c s e extra).
+Proof.
+  intros C. unfold log_traceback_plain. destruct (stamp_here s c _ _) as [s2 m] eqn:E.
+  apply send_cinv. eapply stamp_deliver_cinv; eauto.
+  destruct (stamp_here_step i _ _ _ _ _ _ (c_inv _ _ C) E) as (S1 & _).
+  apply place_globals, S1.
+Qed.
+
+Lemma fields_for_exception_cinv b c s e :
+  CInv b s -> CInv b (fst (fields_for_exception cfg c s e)).
+Proof.
+  intros C. unfold fields_for_exception.
+  destruct (first_registered _ _) as [[fs|e']|]; cbn [fst]; auto.
+  now apply log_traceback_plain_cinv.
+Qed.
+
+Lemma write_traceback_cinv b c s e : CInv b s -> CInv b (write_traceback cfg c s e).
+Proof.
+  intros C. unfold write_traceback.
+  pose proof (fields_for_exception_cinv b c s e C) as C1.
+  destruct (fields_for_exception cfg c s e) as [s1 extra]. cbn [fst] in C1.
+  now apply log_traceback_plain_cinv.
+Qed.
+
+(* --- start messages ---------------------------------------------------------------- *)
+Definition start_msg (a : action) (fs : fields) : msg :=
+  fset K_level (VLevel (nextpos a))
+    (fset K_atype (a_type a)
+    (fset K_uuid (VUuid (a_uuid a))
+    (fset K_ts VTime
+    (fset K_status (VStatus Started) (mkfields fs))))).
+
+Lemma start_message_eq c s h a fs :
+  alookup h (heap s) = Some a -> a_sers a = None ->
+  start_message cfg c s h fs = send c (set_heap s h (bump a)) (start_msg a fs).
+Proof. intros L S. unfold start_message. rewrite L, (take_level_eq _ _ _ L), S. reflexivity. Qed.
+
+Lemma place_start_msg a fs : place (start_msg a fs) = mkplace (a_uuid a) (nextpos a).
+Proof. unfold start_msg. place_tac. Qed.
+
+Lemma status_start_msg a fs : fget K_status (start_msg a fs) = Some (VStatus Started).
+Proof.
+  unfold start_msg. repeat (rewrite fget_fset_other by keys_ne). apply fget_fset_same.
+Qed.
+
+Lemma status_globals s m : nokey K_status (globals s) = true ->
+  fget K_status (fupdate m (globals s)) = fget K_status m.
+Proof. apply fget_fupdate_nokey. Qed.
+
+(* a fresh action object (root or continued task) whose start message goes out *)
+Lemma start_fresh_cinv b c s s2 h anew fs :
+  CInv b s -> Inv i s2 ->
+  heap s2 = aset h anew (heap s) -> ctx s2 = ctx s -> tokens s2 = tokens s -> ids s2 = ids s ->
+  globals s2 = globals s -> trace_of s2 i = trace_of s i ->
+  alookup h (heap s) = None ->
+  a_last anew = 0 -> a_finished anew = false -> a_sers anew = None -> a_token anew = None ->
+  CInv b (start_message cfg c s2 h fs).
+Proof.
+  intros [I G N F C] I2 Eh Ec Et Ei Eg Etr L N0 F0 S0 T0.
+  assert (L2 : alookup h (heap s2) = Some anew) by (rewrite Eh; apply alookup_aset_same).
+  rewrite (start_message_eq _ _ _ _ _ L2 S0). apply send_cinv.
+  destruct (take_step i _ _ _ I2 L2) as (S1 & Pd & _).
+  assert (Pm : place (fupdate (start_msg anew fs) (globals s2)) =
+               mkplace (a_uuid anew) (nextpos anew)).
+  { rewrite place_globals by exact I2. apply place_start_msg. }
+  apply CInv_deliver; proj_set.
+  - apply deliver_step; [apply S1 | exists (a_uuid anew), (nextpos anew); auto].
+  - apply S1.
+  - now rewrite Eg.
+  - rewrite Eh. apply nosers_aset; [now apply nosers_aset | exact S0].
+  - rewrite Eh, Ec, Et. apply FI_aset_unfin.
+    + apply FI_aset_unfin; auto. intros v E; rewrite T0 in E; discriminate.
+    + cbn. exact F0.
+    + cbn. intros v E; rewrite T0 in E; discriminate.
+  - change (trace_of (set_heap s2 h (bump anew)) i) with (trace_of s2 i). rewrite Eh, Ei, Etr.
+    apply CI_start_new; auto.
+    + rewrite Pm. unfold nextpos, next_level; cbn [snd]. now rewrite N0.
+    + rewrite status_globals by (proj_set; now rewrite Eg). apply status_start_msg.
+Qed.
+
+Lemma start_action_cinv b c s h task ty fs :
+  CInv b s -> alookup h (heap s) = None ->
+  CInv b (start_action cfg c s h task ty fs None).
+Proof.
+  intros C0 L. pose proof C0 as [I G N F C]. unfold start_action.
+  assert (O : olive (heap s) (if task then None else cur s c)).
+  { destruct task; [exact Logic.I | apply olive_cur, I]. }
+  assert (U : unfin (heap s) (if task then None else cur s c)).
+  { destruct task; [exact Logic.I | now apply unfin_cur]. }
+  destruct (if task then None else cur s c) as [p|].
+  - destruct (live_lookup _ _ O) as (pa & Lp). rewrite Lp, (take_level_eq _ _ _ Lp).
+    specialize (U _ Lp).
+    destruct (take_step i _ _ _ I Lp) as (S1 & Pd & C1 & F1 & L1).
+    assert (Hne : p <> h) by congruence.
+    set (anew := mkAction (a_uuid pa) (nextpos pa) 0 false [] ty None None).
+    set (s1 := set_heap s p (bump pa)) in *.
+    assert (Lh1 : alookup h (heap s1) = None) by (cbn; now rewrite alookup_aset_other).
+    assert (S2 : Step i s1 (set_heap s1 h anew)) by (apply new_sub_step; auto; apply S1).
+    set (s2 := set_heap s1 h anew) in *.
+    assert (L2 : alookup h (heap s2) = Some anew) by (cbn; apply alookup_aset_same).
+    rewrite (start_message_eq _ _ _ _ _ L2 eq_refl). apply send_cinv.
+    destruct (take_step i _ _ _ (proj1 S2) L2) as (S3 & Pd3 & _).
+    assert (Pm : place (fupdate (start_msg anew fs) (globals s)) =
+                 mkplace (a_uuid anew) (nextpos anew)).
+    { rewrite place_globals by exact I. apply place_start_msg. }
+    apply CInv_deliver; proj_set.
+    + apply deliver_step; [apply S3 | exists (a_uuid anew), (nextpos anew); auto].
+    + apply S3.
+    + exact G.
+    + repeat apply nosers_aset; auto. cbn. eauto.
+    + apply FI_aset_unfin; [apply FI_aset_unfin; [eapply FI_aset_same; eauto | auto |] | auto |];
+        try (cbn; discriminate).
+      intros v E. eapply fi_atok; eauto.
+    + change (trace_of (set_heap s2 h (bump anew)) i) with (trace_of s i).
+      apply CI_start_child; auto.
+      rewrite status_globals by exact G. apply status_start_msg.
+  - cbn [fresh_uuid].
+    pose proof (new_root_step i s h ty None I L eq_refl) as S2.
+    eapply start_fresh_cinv; eauto; try reflexivity. apply S2.
+Qed.
